@@ -131,10 +131,10 @@ func (l *recLogger) Warn(string, interface{})  { l.warn++ }
 func (l *recLogger) Error(string, interface{}) { l.err++ }
 
 type brkCfg struct {
-	thr                             float64
-	minReq                          int64
+	thr                           float64
+	minReq                        int64
 	trial, open, window, interval int64
-	k                               int
+	k                             int
 }
 
 func genBrkCfg() brkCfg {
@@ -205,9 +205,9 @@ func i64s(v []int64) string {
 }
 
 // exact (non-wrapping) arithmetic of the documented machine
-func bsum(a, b int64) *big.Int { return new(big.Int).Add(big.NewInt(a), big.NewInt(b)) }
+func bsum(a, b int64) *big.Int  { return new(big.Int).Add(big.NewInt(a), big.NewInt(b)) }
 func bdiff(a, b int64) *big.Int { return new(big.Int).Sub(big.NewInt(a), big.NewInt(b)) }
-func ltSum(t, a, b int64) bool  { return big.NewInt(t).Cmp(bsum(a, b)) < 0 }  // t < a+b
+func ltSum(t, a, b int64) bool  { return big.NewInt(t).Cmp(bsum(a, b)) < 0 }   // t < a+b
 func geDiff(x, a, b int64) bool { return big.NewInt(x).Cmp(bdiff(a, b)) >= 0 } // x >= a-b
 
 // ---- the documented machine over an event log (reference, independent formulation) ------------------------
@@ -336,11 +336,12 @@ func genGlue(k int) brkGlue {
 }
 
 // Op alphabet of a breaker case (request token `ops`):
-//   c CanRequest()            s OnSuccess()            f OnFailure()
-//   x y z  Execute(ctx, fn) with fn returning (v,nil) / (nil,e) / (v,e): asked from the model as a CanRequest; the
-//          implementation side answers T iff the delegate ran (and its results came back unchanged), F iff it did not run and
-//          the error is ErrFailFast
-//   n      Execute(ctx, nil): returns (nil, nil) without consulting the breaker (no model step, no reading, no callback)
+//
+//	c CanRequest()            s OnSuccess()            f OnFailure()
+//	x y z  Execute(ctx, fn) with fn returning (v,nil) / (nil,e) / (v,e): asked from the model as a CanRequest; the
+//	       implementation side answers T iff the delegate ran (and its results came back unchanged), F iff it did not run and
+//	       the error is ErrFailFast
+//	n      Execute(ctx, nil): returns (nil, nil) without consulting the breaker (no model step, no reading, no callback)
 func genBrkOps(nops int) []byte {
 	ops := make([]byte, nops)
 	pf := []int{20, 50, 80}[rng.Intn(3)]
